@@ -46,7 +46,7 @@ def tstretch(where, Ts):
                       ('mods', {'alts': STRETCH})]}
 
 
-def items(tier, seed):
+def items(tier, seed, rerun=True):
     th = tier == 'thorough'
     # flat: slow cancellations and slow handlers
     yield from spaces.mk(['flat123'], force='none', job_open=JOB,
@@ -99,3 +99,30 @@ def items(tier, seed):
                              nest_open={'timeout': [1, 2], 'sdt': [0, 2],
                                         'forever': [True]},
                              k=1 if th else 0, bound=2)
+    # non-initial state: the same tree has already been run once (the
+    # library resets its per-run marks in co_run); the second run is ended
+    # by its timeout at every instant, or by a critical job
+    if not rerun:
+        return
+    rr = [('', 'rerun', True)]
+    again = {'parts': [('mods', {'alts': [rr + [('top', 'timeout', T)]
+                                          for T in (1, 2, 3)] +
+                                 [rr + [('a', 'out', 'raise'),
+                                        ('a', 'critical', True),
+                                        ('a', 'dur', D)] for D in (1, 2)]}),
+                       ('mods', {'alts': STRETCH[:4]})]}
+    yield from spaces.mk(['flat23'], force='mods',
+                         fargs={'alts': [rr + [('top', 'timeout', T)]
+                                         for T in (1, 2)]},
+                         job_open={'dur': [0, 2, 3], 'cdelay': [1],
+                                   'sd': [1, 3]},
+                         top_open={'sdt': [0, 2], 'window': [1]},
+                         nest_open={}, k=1, bound=2)
+    yield from spaces.mk(['nest22', 'nest21'], force='product', fargs=again,
+                         job_open={'dur': [0, 2, 3], 'cdelay': [1]},
+                         top_open={'sdt': [0, 2]},
+                         nest_open={'timeout': [1, 2], 'window': [1]},
+                         k=1, bound=2)
+    yield from spaces.mk(['deep3'], force='product', fargs=again,
+                         job_open={'dur': [2, 3]}, top_open={},
+                         nest_open={}, k=1 if th else 0, bound=2)
